@@ -8,12 +8,16 @@ import (
 	"crypto/rand"
 	"crypto/sha256"
 	"crypto/x509"
+	"crypto/x509/pkix"
 	"encoding/base64"
 	"encoding/hex"
 	"encoding/json"
 	"encoding/pem"
+	"fmt"
+	"math/big"
 	"net/http"
 	"net/http/httptest"
+	"strings"
 	"time"
 
 	"go.step.sm/crypto/jose"
@@ -44,6 +48,9 @@ type env struct {
 	// a certificate of the CA and its key: signs admin (x5c) and renew (x5cInsecure) tokens
 	leaf    *x509.Certificate
 	leafKey crypto.Signer
+	// certificates of the CA as other provisioner types would have issued them (provisioner extension naming that
+	// provisioner; "noext": no extension), all with the key leafKey: renew tokens of such certificates
+	leafBy map[string]*x509.Certificate
 	// an SSH host certificate of the CA and its key: signs SSHPOP tokens (provisioner "sshpop")
 	sshCert *ssh.Certificate
 	sshKey  *ecdsa.PrivateKey
@@ -77,7 +84,20 @@ func newEnv(hasDB, noChk bool, hooks *ss.Hooks) *env {
 	mux.HandleFunc("/keys", func(w http.ResponseWriter, _ *http.Request) {
 		json.NewEncoder(w).Encode(jose.JSONWebKeySet{Keys: []jose.JSONWebKey{e.oidcKey.Public()}})
 	})
+	// cloud identity provisioners stood up against the same loopback key server (hooks of build tag verif in
+	// /repo/authority/provisioner: VerifSetAzureDiscoveryURL, VerifSetGCPCertsURL): Azure and GCP, each with trust on
+	// first use (the token id is the instance) and with it disabled (Azure: reuse allowed; GCP: id = hash of the token)
+	azt := &provisioner.Azure{Type: "Azure", Name: "azt", TenantID: "tenant-tofu"}
+	azr := &provisioner.Azure{Type: "Azure", Name: "azr", TenantID: "tenant-reuse", DisableTrustOnFirstUse: true}
+	gcpt := &provisioner.GCP{Type: "GCP", Name: "gcpt"}
+	gcpr := &provisioner.GCP{Type: "GCP", Name: "gcpr", DisableTrustOnFirstUse: true}
+	provisioner.VerifSetAzureDiscoveryURL(azt, e.oidcSrv.URL+"/.well-known/openid-configuration")
+	provisioner.VerifSetAzureDiscoveryURL(azr, e.oidcSrv.URL+"/.well-known/openid-configuration")
+	provisioner.VerifSetGCPCertsURL(gcpt, e.oidcSrv.URL+"/keys")
+	provisioner.VerifSetGCPCertsURL(gcpr, e.oidcSrv.URL+"/keys")
 	e.provs = provisioner.List{
+		azt, azr, gcpt, gcpr,
+		&provisioner.ACME{Type: "ACME", Name: "acme"},
 		&provisioner.SSHPOP{Type: "SSHPOP", Name: "sshpop"},
 		&provisioner.OIDC{Type: "OIDC", Name: "oidc", ClientID: oidcClient,
 			ConfigurationEndpoint: e.oidcSrv.URL + "/.well-known/openid-configuration", Admins: []string{oidcAdmin}},
@@ -92,6 +112,18 @@ func newEnv(hasDB, noChk bool, hooks *ss.Hooks) *env {
 	}
 	e.leaf = must(e.ca.SignX509(must(e.ca.Token(fixture.TokenOpts{Subject: cn, SANs: []string{cn + ".example.com"}})), csr, provisioner.SignOptions{}))[0]
 	e.leafKey = key
+	e.leafBy = map[string]*x509.Certificate{}
+	for name, typ := range map[string]provisioner.Type{"acme": provisioner.TypeACME, "k8s": provisioner.TypeK8sSA, "azt": provisioner.TypeAzure,
+		"azr": provisioner.TypeAzure, "gcpt": provisioner.TypeGCP, "gcpr": provisioner.TypeGCP, "oidc": provisioner.TypeOIDC, "noext": 0} {
+		tpl := &x509.Certificate{SerialNumber: new(big.Int).SetBytes(must(randutil.Salt(14))), Subject: pkix.Name{CommonName: cn}, DNSNames: []string{cn + ".example.com"},
+			NotBefore: time.Now().Add(-time.Minute), NotAfter: time.Now().Add(24 * time.Hour), KeyUsage: x509.KeyUsageDigitalSignature,
+			ExtKeyUsage: []x509.ExtKeyUsage{x509.ExtKeyUsageServerAuth, x509.ExtKeyUsageClientAuth}}
+		if name != "noext" {
+			tpl.ExtraExtensions = []pkix.Extension{must((&provisioner.Extension{Type: typ, Name: name}).ToExtension())}
+		}
+		der := must(x509.CreateCertificate(rand.Reader, tpl, e.ca.MiniCA.Intermediate, key.Public(), e.ca.MiniCA.Signer))
+		e.leafBy[name] = must(x509.ParseCertificate(der))
+	}
 	// SSH host certificate through the real SSH sign flow (JWK token with step.ssh options)
 	name := "h" + randHex() + ".example.com"
 	e.sshKey = must(ecdsa.GenerateKey(elliptic.P256(), rand.Reader))
@@ -113,8 +145,15 @@ func mintHdr(key any, alg string, hdr map[string]any, claims map[string]any) str
 	return must(jose.Signed(sig).Claims(claims).CompactSerialize())
 }
 
-func (e *env) chain() []string {
-	return []string{base64.StdEncoding.EncodeToString(e.leaf.Raw), base64.StdEncoding.EncodeToString(e.ca.MiniCA.Intermediate.Raw)}
+func (e *env) chain() []string { return e.chainOf("") }
+
+// chainOf: the certificate issued by provisioner `issuer` ("" = the jwk-issued leaf) and the intermediate
+func (e *env) chainOf(issuer string) []string {
+	leaf := e.leaf
+	if c, ok := e.leafBy[issuer]; ok {
+		leaf = c
+	}
+	return []string{base64.StdEncoding.EncodeToString(leaf.Raw), base64.StdEncoding.EncodeToString(e.ca.MiniCA.Intermediate.Raw)}
 }
 
 func (e *env) opts(from *fixture.CA) fixture.Opts {
@@ -175,6 +214,18 @@ func sha256hex(s string) string {
 	return hex.EncodeToString(sum[:])
 }
 
+// payloadSha is what Authority.UseToken (reuseKeyMaterial, since c4bb6a3) hashes for a token without id: the
+// signed payload when the string parses as a JWS (compact or JSON serialization), else the string itself.
+func payloadSha(presented string) string {
+	if jws, err := jose.ParseJWS(presented); err == nil {
+		if p := jws.UnsafePayloadWithoutVerification(); len(p) > 0 {
+			sum := sha256.Sum256(p)
+			return hex.EncodeToString(sum[:])
+		}
+	}
+	return sha256hex(presented)
+}
+
 func randHex() string { return must(randutil.Hex(16)) }
 
 func spell(tok string, i int) string {
@@ -185,6 +236,27 @@ func spell(tok string, i int) string {
 		return " " + tok
 	case 3:
 		return tok + "="
+	case 4, 5:
+		// flattened JSON serialization of the same signed content, with an unprotected header the signature does not cover
+		p := strings.Split(tok, ".")
+		if len(p) != 3 {
+			return tok
+		}
+		return fmt.Sprintf(`{"protected":"%s","header":{"v":%d},"payload":"%s","signature":"%s"}`, p[0], i, p[1], p[2])
+	case 6:
+		// ECDSA malleability: (r, n-s) verifies wherever (r, s) does
+		p := strings.Split(tok, ".")
+		if len(p) != 3 {
+			return tok
+		}
+		sig, err := base64.RawURLEncoding.DecodeString(p[2])
+		if err != nil || len(sig) != 64 {
+			return tok
+		}
+		n := elliptic.P256().Params().N
+		s2 := new(big.Int).Sub(n, new(big.Int).SetBytes(sig[32:]))
+		out := append(append([]byte{}, sig[:32]...), s2.FillBytes(make([]byte, 32))...)
+		return p[0] + "." + p[1] + "." + base64.RawURLEncoding.EncodeToString(out)
 	}
 	return tok
 }
